@@ -19,3 +19,39 @@ Print Assumptions C14_version_iff_declarations.
 Theorem C14_split_iri_lossless : forall iri : str, let '(p, n) := split_iri iri in p ++ n = iri.
 Proof. exact split_iri_app. Qed.
 Print Assumptions C14_split_iri_lossless.
+
+From PJ.Model Require Import Spec Decoder.
+From PJ.Proofs Require Import EncStream EncNamespace DecoderSound DecoderProofs.
+
+(* Every (prefix, IRI) bound on the sink is denoted by the written stream as a Prefix event with the
+   same name and the same IRI, in binding order, before the statements -- and the statements are
+   the same whether declarations are on or off (ns_events is [] when the option is off).  Any table
+   sizes the writer accepts, incl. ones where declarations evict. *)
+Theorem C14_declarations_and_statements :
+  forall (o : soptions) (s s' : stream) (d : sdata) (evs : list tev),
+    stream_new TripleStream Generic o = Ok s -> cfg_ok o (st_logical s) -> fl_rows (st_flow s) = [] ->
+    triples_stream_frames d s = (s', evs) -> raised evs = None ->
+    run (flat_map f_rows (emitted evs)) = Valid (ns_events o d ++ flat_map event_of_triple (d_stmts d)).
+Proof. exact triples_stream_valid_ns. Qed.
+Print Assumptions C14_declarations_and_statements.
+
+(* One declaration from any inter-statement state: accepted by the referee as exactly
+   Prefix name iri, invariant kept. *)
+Theorem C14_one_declaration :
+  forall (name iri : str) (t t' : tenc) (rp : repeated) (rows : list row) (ss : sstate),
+    JS t rp ss -> 2 <= o_version (s_opts ss) ->
+    encode_namespace_declaration name iri t = Ok (t', rows) ->
+    exists ss', steps rows ss = SOk (ss', [EPrefix name iri]) /\ JS t' rp ss' /\ s_opts ss' = s_opts ss /\ s_open ss' = s_open ss.
+Proof. exact encode_namespace_valid. Qed.
+Print Assumptions C14_one_declaration.
+
+(* ... and the reader delivers what the stream denotes (C04), so the declarations arrive. *)
+Theorem C14_reader_delivers_declarations :
+  forall (fs : list frame) (evs : list event) (dl : bool),
+    run_frames fs = Valid evs ->
+    exists po ak st0 sk first more,
+      skip_empty fs = (sk, first :: more) /\ options_from_frame first dl = Ok po /\
+      route (po_phys po) = Ok ak /\ decoder_new po = Ok st0 /\
+      flat_obs (decode_frames Generic ak po fs st0) = (evs, None).
+Proof. exact decoder_sound_frames. Qed.
+Print Assumptions C14_reader_delivers_declarations.
